@@ -180,7 +180,7 @@ def strip_identity(env):
 
 def gate_suite(ctx):
     rng = ctx.rng
-    ncfg, per = ctx.n(60, 600), ctx.n(25, 50)
+    ncfg, per = ctx.n(60, 400), ctx.n(25, 50)
     cases = []
     spoof_checked = 0
     # fixed configurations first so that every back-end kind x case mapping is present at any seed
@@ -371,7 +371,7 @@ def htpasswd_suite(ctx):
     reported = set()
     try:
         todo = corpus(pool)
-        n = ctx.n(300, 6000)
+        n = ctx.n(300, 4000)
         for i in range(n + len(todo)):
             case = todo[i] if i < len(todo) else H.gen_case(rng, pool)
             res = H.run_case(case, wd)
@@ -536,11 +536,16 @@ def run(ctx):
                     "vlib/x_C05*.py: instrumentation of the real Application (do_* / _login / create_collection wrapped on the instance), "
                     "classification of CONTENT_LENGTH by int(), tables of library answers"]
     ctx.prove(extra_targets=["Gen/GateSkelGen.vo"])
+    ctx.log("proved")
     skeleton_obligation(ctx)
     text_suite(ctx)
+    ctx.log("text suite done")
     gate_suite(ctx)
+    ctx.log("gate suite done")
     htpasswd_suite(ctx)
+    ctx.log("htpasswd suite done")
     live_monitor(ctx)
+    ctx.log("live monitor done")
 
 
 def replay(ctx, path):
